@@ -20,7 +20,11 @@ PROFILE = P.profile(p_cutoff=0.5, entry_w={"tree": 7, "hms": 1, "minimize": 3},
 
 
 def gen(seed, tier):
-    return P.gen_plan(seed, PROFILE, PROP)
+    pl = P.gen_plan(seed, PROFILE, PROP)
+    if "minimize" in pl and pl["minimize"].get("maxfun") is not None:
+        # budgets are not always Python ints: np.arange / rng.integers give numpy integers, 1e3 is a float
+        pl["minimize"]["maxfun_type"] = ["int", "int", "np.int64", "float"][seed % 4]
+    return pl
 
 
 class C03Monitor(Monitor):
